@@ -49,7 +49,7 @@ struct WritePlan {
     std::string add_metadata;   // "" = all
     bool locations_on_ways = false;
     // feeding script: per batch of objects: 0 = whole buffer, 1 = item by item; flush after?
-    struct Step { size_t from, to; int how; bool flush_after; };
+    struct Step { size_t from, to; int how; bool flush_after; size_t set_size; };   // set_size: set_buffer_size() before this step (0 = no call)
     std::vector<Step> steps;
     size_t buffer_size = 0;  // set_buffer_size (0 = default)
 };
@@ -92,7 +92,9 @@ WritePlan gen_plan(const model::Data& d, bool for_c01, int format) {
     size_t i = 0;
     while (i < d.objs.size()) {
         const size_t n = 1 + choose(S_WORK, 60);
-        WritePlan::Step s{i, std::min(d.objs.size(), i + n), static_cast<int>(choose(S_WORK, 3) == 0), choose(S_WORK, 5) == 0};
+        static const size_t step_sizes[] = {65536, 262144, 1048576};
+        WritePlan::Step s{i, std::min(d.objs.size(), i + n), static_cast<int>(choose(S_WORK, 3) == 0), choose(S_WORK, 5) == 0, 0};
+        if (i > 0 && choose(S_WORK, 5) == 0) { s.set_size = step_sizes[choose(S_WORK, 3)]; }   // documented: takes effect after the next flush
         p.steps.push_back(s);
         i = s.to;
     }
@@ -192,6 +194,10 @@ WriteResult write_all(const model::Data& d, const WritePlan& p, int pool_threads
             int obj_index = 0;
             for (size_t si = 0; alive && si < p.steps.size(); ++si) {
                 const auto& st = p.steps[si];
+                if (st.set_size) {
+                    writer->set_buffer_size(st.set_size);
+                    sim::probe("set_buffer_size() called between writes");
+                }
                 size_t i = st.from;
                 while (alive && i < st.to) {
                     size_t next = i;
@@ -276,6 +282,8 @@ std::string plan_json(const model::Data& d, const WritePlan& p) {
 
 // ------------------------------------------------------------------------------------------------
 // C08
+
+void c08_check_against_model(const model::Data& d, const WritePlan& p, const std::string& bytes, const std::string& kind);   // writer_roundtrip.inc
 
 void run_c08() {
     simfs::reset();
@@ -423,6 +431,9 @@ void run_c08() {
         if (p.fsync && run.dirty_after_close) {
             sim::report("oracle", "C08.durable/" + kind, "fsync requested but the file has unsynced data after close() returned");
         }
+        // "exactly the objects handed to the Writer": against the data model, not only against the reference write (a defect
+        // that does not depend on faults or schedules truncates both files alike)
+        if (fk != F_ENCODER) { c08_check_against_model(d, p, run.bytes, kind); }
         if (fired == 0 && run.bytes != ref.bytes) {
             // compare the decoded contents
             const Input a = as_input(p, ref.bytes);
